@@ -1,4 +1,6 @@
 """C19 -- USB2 reset, high-speed handshake and suspend follow the line-state timing rules."""
+import re
+
 from ..ir import E
 from .. import q
 from ..fsm import state_outcomes, reaches, find_path, reachable
@@ -69,11 +71,15 @@ def run(ctx):
     # (b)
     T25 = '%d == line_state_time' % int(2.5 * US)
     j_states = set()
+    # the K-J pair counter by role: the local register compared with 2 on the (non-resume) edges into the high-speed state
+    pc = {m_.group(1) for e in fsm.in_edges(hs_set) if e.src != susp for a_, p_ in q.atoms(e) if p_
+          for m_ in [re.match(r'^2 == ([A-Za-z_][\w#]*)$', a_)] if m_ and m_.group(1) in ir.signals}
+    PAIRS = pc.pop() if len(pc) == 1 else '<pair counter>'      # none / ambiguous: the obligations below fail
     for e in fsm.in_edges(hs_set):
         if e.src == susp:
             ok = q.has(e, 'was_hs_pre_suspend')
         else:
-            ok = q.has(e, T25) and q.has(e, '2 == valid_pairs')
+            ok = q.has(e, T25) and q.has(e, '2 == ' + PAIRS)
             j_states.add(e.src)
         ctx.ob('C19.hs-entry', 'USBResetSequencer.%s->hs-set' % R(e.src), ok, e.loc,
                'high speed may only be entered after the third valid K-J pair (2.5us each) or when resuming from a '
@@ -87,13 +93,13 @@ def run(ctx):
     o = state_outcomes(fsm, dev, {T2MS: False})
     o2 = state_outcomes(fsm, dev, {T2MS: True})
     clr = [a for a in ir.assigns if a.state == (fsm.id, dev) and q.is_zero(a.rhs) and q.has(a, T2MS)]
-    ok = set(o) == {None} and len(o2) == 1 and None not in o2 and {a.lhs.canon() for a in clr} >= {'timer', 'valid_pairs'}
+    ok = set(o) == {None} and len(o2) == 1 and None not in o2 and {a.lhs.canon() for a in clr} >= {'timer', PAIRS}
     ctx.ob('C19.device-chirp-2ms', 'USBResetSequencer.device-chirp.exit', ok, fsm.state_loc[dev],
            'the device chirp lasts until timer == 2 ms and then clears timer and valid_pairs: stay=%s go=%s' % (
                sorted(map(str, o)), sorted(map(str, o2))))
     # timing states
     TO = '%d == timer' % (2500 * US)
-    await_k = {e.dst for e in fsm.out_edges(jt) if q.has(e, T25) and q.has(e, '2 == valid_pairs', False)}
+    await_k = {e.dst for e in fsm.out_edges(jt) if q.has(e, T25) and q.has(e, '2 == ' + PAIRS, False)}
     ctx.need(len(await_k) == 1, 'await-K state')
     await_k = await_k.pop()
     kt = {e.dst for e in fsm.out_edges(await_k) if q.has(e, '2 == self.line_state')}
@@ -125,8 +131,8 @@ def run(ctx):
         ctx.ob('C19.chirp-timeout-fallback', 'USBResetSequencer.%s' % R(s), set(o) == {fallback}, fsm.state_loc[s],
                'when the host chirp does not complete within 2.5 ms the device must fall back to full/low speed whatever '
                'else holds: outcomes %s' % sorted(map(R, o)))
-    inc = [a for a in ir.drivers('valid_pairs', exact=True) if isinstance(a.rhs, E) and a.rhs.op == '+']
-    ok = len(inc) == 1 and q.state_of(inc[0]) == jt and q.has(inc[0], T25) and q.has(inc[0], '2 == valid_pairs', False)
+    inc = [a for a in ir.drivers(PAIRS, exact=True) if isinstance(a.rhs, E) and a.rhs.op == '+']
+    ok = len(inc) == 1 and q.state_of(inc[0]) == jt and q.has(inc[0], T25) and q.has(inc[0], '2 == ' + PAIRS, False)
     ctx.ob('C19.pair-count', 'USBResetSequencer.valid_pairs.inc', ok, inc[0].loc if inc else None,
            'pairs are counted only after a full J in the J-timing state: %s' % [q.fmt(a) for a in inc])
     # (c)
